@@ -15,6 +15,8 @@ WTARGET = os.path.join(R.CACHE, 'witness-target')
 
 # (unit regex, fn regex) -> witness cases to try, in order
 CASES = [
+    (r'rank9', r'.*', ['rank9']),
+    (r'rank_small.*', r'.*', ['rank_all']),
     (r'bfv\.copy.*', r'.*', ['bfv_copy']),
     (r'bfv\.unaligned.*', r'.*', ['bfv_unaligned']),
     (r'bfv\.apply.*', r'.*', ['bfv_apply']),
